@@ -17,5 +17,6 @@ T=$(mktemp -d /var/tmp/vsetup.XXXXXX)
 trap 'rm -rf "$T"' EXIT
 gcc -O1 -I oracle oracle/validate_cal.c -o "$T/vc" && "$T/vc"
 gcc -O1 oracle/validate_tz.c -o "$T/vt" && "$T/vt"
+gcc -O1 oracle/validate_berlin.c -o "$T/vb" && "$T/vb"
 mkdir -p evidence counterexamples
 echo "setup: ok"
